@@ -116,6 +116,8 @@ class RefPeer:
         self.first_kex_done = False
         self.peer_host_key = None
         self.connected = asyncio.Event()
+        self.hooks = {}             # name -> async fn(peer), see _hook()
+        self.skip_unimplemented = False
 
     # ------------------------------------------------ protocol callbacks
 
@@ -195,7 +197,8 @@ class RefPeer:
             if self.auto_ignore and t in (R.MSG_IGNORE, R.MSG_DEBUG,
                                           R.MSG_EXT_INFO):
                 continue
-            if t in skip:
+            if t in skip or (self.skip_unimplemented and
+                             t == R.MSG_UNIMPLEMENTED):
                 continue
             if want is not None and t not in (want if isinstance(
                     want, (tuple, list, set)) else (want,)):
@@ -213,6 +216,11 @@ class RefPeer:
                                 b'kex-strict-s-v00@openssh.com')
         return R.build_kexinit(lists, cookie)
 
+    async def _hook(self, name):
+        fn = self.hooks.get(name)
+        if fn is not None:
+            await fn(self)
+
     async def exchange_versions(self):
         await self.connected.wait()
         self.send_raw(self.version + b'\r\n')
@@ -229,8 +237,10 @@ class RefPeer:
         """Run one key exchange (initial or re-exchange)"""
 
         if send_kexinit or self.my_kexinit is None:
+            await self._hook('pre_kexinit')
             self.my_kexinit = self.kexinit_payload()
             self.send(self.my_kexinit)
+            await self._hook('post_kexinit')
 
         if peer_kexinit is None:
             peer_kexinit = await self.recv(R.MSG_KEXINIT)
@@ -260,10 +270,12 @@ class RefPeer:
         self.hashname = R.kex_hash_name(kex)
         fam = R.kex_family(kex)
 
+        await self._hook('pre_kex_msgs')
         if self.role == 'client':
             k_s, msgs, k_enc, sig = await self._kex_client(kex, fam)
         else:
             k_s, msgs, k_enc, sig = await self._kex_server(kex, fam, None)
+            await self._hook('pre_kex_reply')
 
         h = R.exchange_hash(kex, v_c, v_s, i_c, i_s, k_s, msgs, k_enc)
 
@@ -278,8 +290,11 @@ class RefPeer:
             self.session_id = h
 
         self._install_keys()
+        await self._hook('pre_newkeys')
         self.send(bytes([R.MSG_NEWKEYS]))
+        await self._hook('post_newkeys')
         await self.recv(R.MSG_NEWKEYS)
+        await self._hook('kex_done')
         self.first_kex_done = True
         self.my_kexinit = None
 
